@@ -7,6 +7,8 @@ from concurrent.futures import ProcessPoolExecutor
 sys.path.insert(0, '/verif')
 from gmv import core
 ROOT = '/tmp/corpus'
+# evaluation runs from a snapshot of the checker, so that gmv/ can be edited while a long evaluation is running
+CHECK = '/tmp/corpus/snap/check' if os.path.exists('/tmp/corpus/snap/check') and os.environ.get('GMV_USE_SNAP') else '/verif/check'
 
 
 def items():
@@ -66,13 +68,20 @@ def build_one(args):
 
 def check_one(args):
     k, prop, fdir = args
-    o = subprocess.run(['/verif/check', prop, '--facts', fdir], stdout=subprocess.PIPE, stderr=subprocess.STDOUT, text=True,
+    o = subprocess.run([CHECK, prop, '--facts', fdir], stdout=subprocess.PIPE, stderr=subprocess.STDOUT, text=True,
                        env=dict(os.environ, GMV_NO_EVIDENCE='1'))
     viol = [l for l in o.stdout.splitlines() if l.startswith(('VIOLATED', 'ANCHOR-LOST', 'ERROR', 'Traceback'))]
     return k, prop, o.returncode, viol[:8]
 
 
 def main():
+    if (sys.argv[1] if len(sys.argv) > 1 else 'eval') == 'eval' and '--live' not in sys.argv and not os.environ.get('GMV_USE_SNAP'):
+        shutil.rmtree(ROOT + '/snap', ignore_errors=True)
+        os.makedirs(ROOT + '/snap')
+        for n in ('check', 'gmv', 'spec', 'known_findings.json'):
+            (shutil.copytree if os.path.isdir('/verif/' + n) else shutil.copy2)('/verif/' + n, ROOT + '/snap/' + n)
+        os.environ['GMV_USE_SNAP'] = '1'
+        os.execv(sys.executable, [sys.executable] + sys.argv)
     cmd = sys.argv[1] if len(sys.argv) > 1 else 'eval'
     its = items()
     sel = [a for a in sys.argv[2:] if not a.startswith('-')]
